@@ -1,0 +1,16 @@
+//go:build verif
+
+package relic
+
+import "github.com/simimpact/srsim/pkg/key"
+
+// VerifCatalog returns a copy of the relic catalog (verification harness only).
+func VerifCatalog() map[key.Relic]Config {
+	mu.Lock()
+	defer mu.Unlock()
+	out := make(map[key.Relic]Config, len(relicCatalog))
+	for k, v := range relicCatalog {
+		out[k] = v
+	}
+	return out
+}
